@@ -62,6 +62,12 @@ CHECKS = {
                     'reaction to every line); bounded runs from connectionMade through dataReceived; full handshakes against a '
                     'reference server for every subset of accepted mechanisms.',
             'ref': 'DESIGN.md 2/C07', 'note': NOTE, 'technique': SYM + '; inductive one-step check from an arbitrary state'},
+    'C08': {'text': 'Real DBusClientConnection with n real outstanding calls receives solver-chosen event sequences (return / '
+                    'error with a SYMBOLIC u32 reply serial, clock advances against deadlines, connection loss); after every event a '
+                    'reference model decides which Deferred fired with what, and that bookkeeping and timers of completed calls are '
+                    'gone. Bounded: n <= 2/3 calls, <= 3/4 events.',
+            'ref': 'DESIGN.md 2/C08', 'note': NOTE + ' Virtual clock (twisted task.Clock) replaces the reactor.',
+            'technique': SYM + ' of event sequences against a reference model'},
 }
 _TODO = 'check not built yet in this revision (planned, see DESIGN.md section 2)'
 NOT_APPLICABLE = {('C%02d' % i): _TODO for i in range(1, 21)}
